@@ -24,8 +24,9 @@ CLAIMED = {
         text="Sensor + specification: for every (constraint, target, real/complex, shape 1-D/(1,n)/(B,n)/3-D/4-D, signal family, input scale) the harness measures "
              "each batch item (power, element-wise output/input ratio, idempotence, rescale invariance, peak, PAPR, 20-dB occupancy) in ppm of the configured limit; "
              "Constraints.tla holds the contracts and every exemption (zero input, negligible power, sparse signals) and TLC takes the decisions "
-             "(Trace_Constraints). Composition is discrete and decided by TLC proper: MC_Constraints model-checks the fold law, and the stage order recorded by "
-             "forward hooks must equal the declared order; factory OFDM/MIMO composites are measured against all their limits on the final output.",
+             "(Trace_Constraints). Composition: MC_Constraints model-checks the fold law, and the result of random chains (total, average, peak, PAPR, "
+             "per-antenna, identity stages; CompositeConstraint, combine_constraints, apply_constraint_chain) must equal sequential application; factory "
+             "OFDM/MIMO composites are measured against all their limits on the final output; measure_signal_properties is checked against the definitions.",
         design_ref="7/C08, 8",
         note="Real-valued power/PAPR contracts cannot be explored by an explicit-state model checker: measurement events with a 2 ppm float32 allowance (level 'other').",
         technique="TLA+ contract module Constraints + TLC verdicts on sensor measurement events; model checking of the composition law"),
@@ -75,7 +76,8 @@ CLAIMED = {
              "that two named impure designs (position-dependent answer, stale cache) violate it. The 28 224 call histories TLC exports (two calls, batches "
              "of 1..3 members in every order with repetition, row and concatenated-block layouts) are sampled and replayed on 51 real components "
              "(encoders, inverses, hard and soft decoders, memoryless modems, per-item constraints), interleaved across two objects; Trace_Purity keeps the "
-             "learnt member->result function as state and rejects any later disagreement, input mutation, or a raising single-sample call.",
+             "learnt member->result function as state and rejects any later disagreement, input mutation, or a raising single-sample call. Dense pools (all "
+             "error patterns of weight <= 2 around a codeword, all sign patterns, all messages) are paired at random in one batch and fed one by one to a long-lived object.",
         design_ref="7/C20",
         note="Result ids are equivalence classes up to rtol 1e-5 / atol 1e-6; a layout may be rejected with an error (listed in the evidence) but never answered "
              "with different values.",
@@ -89,7 +91,8 @@ CLAIMED = {
              "flooding min-sum with rational alpha and integer beta, plus rescaling invariance.",
         design_ref="7/C10",
         note="Exact comparison only on lattices where the arithmetic is rational/integer (ln2 lattice |a|<=2, n<=7 for posteriors; integers in 1/320 units for "
-             "min-sum, <=3 iterations); ties and the sub-offset corner are excluded by spec predicates and counted in the evidence.",
+             "min-sum, <=3 iterations); ties are excluded by a spec predicate and counted in the evidence; the sub-offset corner of offset min-sum is defined by the spec "
+             "(a message weaker than the offset becomes zero) and judged like every other input.",
         technique="TLA+ spec SoftDecoding + TLC: exact-arithmetic oracle model checking, trace validation of recorded soft decodings"),
     "C11": dict(
         category="model_checking",
